@@ -47,6 +47,29 @@ def gen_scn(ctx, k, flavour):
     sc.add('mark done', 'stop')
     return sc.text(), {'threads': nt, 'nodes': nodes, 'mix': mix, 'normal': normal, 'calls': cnt, 'fi': fi}
 
+def seq_scan(wire, probing):
+    """per destination node 1,2,...,255,1,... in wire order; 0 only while numbering is off during connection probing; the
+    expectation restarts after a MSG_SYS_RESET on the wire. Returns ((kind, text) or None, number of 255->1 wraps)."""
+    expect = {}
+    RESET = model.C('MSG_SYS_RESET')
+    wraps = 0
+    for i, w in enumerate(wire):
+        ad = tuple(w['addr'])
+        if probing and w['seq'] == 0:
+            continue                       # numbering switched off during connection probing
+        probing = False
+        exp = expect.get(ad, 1)
+        if w['seq'] != exp:
+            prev = [x['seq'] for x in wire[max(0, i - 6):i + 3] if tuple(x['addr']) == ad]
+            kind = 'zero-outside-probing' if w['seq'] == 0 else 'not-consecutive'
+            return (kind, f'node {ad}: message #{i} type {w["type"]:#x} has seq {w["seq"]}, expected {exp} (neighbourhood {prev})'), wraps
+        if exp == 255:
+            wraps += 1
+        expect[ad] = model.seq_next(exp)
+        if w['type'] == RESET:
+            expect = {}
+    return None, wraps
+
 def check_wire(ctx, r, meta):
     if ctx.generic_failures(r, meta):
         return
@@ -59,29 +82,10 @@ def check_wire(ctx, r, meta):
     except model.FrameError as e:
         ctx.violation('framing', 'wire', str(e), r.scenario, r.flavour, meta)
         return
-    expect = {}
-    probing = meta['normal']
-    RESET = model.C('MSG_SYS_RESET')
-    wraps = 0
-    pernode = defaultdict(int)
-    for i, w in enumerate(wire):
-        ad = tuple(w['addr'])
-        if probing and w['seq'] == 0:
-            continue                       # numbering switched off during connection probing
-        probing = False
-        exp = expect.get(ad, 1)
-        if w['seq'] != exp:
-            prev = [x['seq'] for x in wire[max(0, i - 6):i + 3] if tuple(x['addr']) == ad]
-            kind = 'zero-outside-probing' if w['seq'] == 0 else 'not-consecutive'
-            ctx.violation(kind, 'seq', f'node {ad}: message #{i} type {w["type"]:#x} has seq {w["seq"]}, expected {exp} (neighbourhood {prev}); '
-                          f'{meta["threads"]} threads, mix {meta["mix"]}', r.scenario, r.flavour, meta)
-            return
-        if exp == 255:
-            wraps += 1
-        expect[ad] = model.seq_next(exp)
-        pernode[ad] += 1
-        if w['type'] == RESET:
-            expect = {}
+    bad, wraps = seq_scan(wire, meta['normal'])
+    if bad:
+        ctx.violation(bad[0], 'seq', bad[1] + f'; {meta["threads"]} threads, mix {meta["mix"]}', r.scenario, r.flavour, meta)
+        return
     ctx.evaluations += 1
     ctx.count('wire_messages', len(wire))
     ctx.count('wraps_255_to_1', wraps)
